@@ -91,26 +91,26 @@ def rule_window(ctx):
     sname, ename = norm(c.args[0]), norm(c.args[1])
     kw = {k.arg: norm(k.value) for k in c.keywords}
     ctx.ob("FileSet.find_closest.filters", kw.get("filters") == flt, "find(%s, %s, %s)" % (sname, ename, kw), "filters=<the caller's filters>", node=c, func=f)
-    arms = {}
-    for st in flow.stmts:
-        if isinstance(st, ast.If) and "_sub_dir_time_resolution" in norm(st.test):
-            neg = "is None" in norm(st.test) and "is not None" not in norm(st.test)
-            none_arm, res_arm = (st.body, st.orelse) if neg else (st.orelse, st.body)
-            for nm, arm in (("none", none_arm), ("res", res_arm)):
-                arms[nm] = {norm(s.targets[0]): s for s in arm if isinstance(s, ast.Assign)}
-    if not arms:
+    if len(c.args) < 2:
+        raise AnalysisError("find_closest: find() is not called with (start, end)")
+    cond = "self._sub_dir_time_resolution is None"
+    R = "self._sub_dir_time_resolution"
+    if not any(R in norm(n) for n in walk_no_nested(f.node) if isinstance(n, (ast.If, ast.IfExp))) and not any(
+            isinstance(n, (ast.If, ast.IfExp)) and R in norm(flow.resolve(n.test, at=n)) for n in walk_no_nested(f.node)):
         raise AnalysisError("find_closest: branch on the sub-directory resolution not found")
-    env = {ts: "T", "self._sub_dir_time_resolution": "R"}
+    env = {ts: "T", R: "R"}
+    sR = flow.resolve_under(c.args[0], {cond: False}, at=c, stop=(ts,))
+    eR = flow.resolve_under(c.args[1], {cond: False}, at=c, stop=(ts,))
     try:
-        ls = linear_form(arms["res"][sname].value, env)
-        le = linear_form(arms["res"][ename].value, env)
+        ls = linear_form(sR, env)
+        le = linear_form(eR, env)
     except (KeyError, AnalysisError) as e:
         raise AnalysisError("find_closest: window expressions not linear in (t, R): %s" % e)
     ctx.ob("FileSet.find_closest.window", ls == {"T": 1, "R": -1} and le == {"T": 1, "R": 1}, "start = %s, end = %s" % (ls, le),
-           "start = t - R and end = t + R (symmetric: the nearest file may lie before or after t)", node=arms["res"][sname], func=f)
-    nn = {k: norm(v.value) for k, v in arms["none"].items()}
+           "start = t - R and end = t + R (symmetric: the nearest file may lie before or after t)", node=c, func=f)
+    nn = {sname: norm(flow.resolve_under(c.args[0], {cond: True}, at=c, stop=(ts,))), ename: norm(flow.resolve_under(c.args[1], {cond: True}, at=c, stop=(ts,)))}
     ctx.ob("FileSet.find_closest.window.all", nn.get(sname) == "datetime.min" and nn.get(ename) == "datetime.max", "without resolution: %s" % nn,
-           "the whole time axis", node=list(arms["none"].values())[0] if arms["none"] else f.node, func=f)
+           "the whole time axis", node=c, func=f)
 
 
 def rule_cover(ctx):
@@ -123,28 +123,46 @@ def rule_cover(ctx):
         ctx.ob("FileSet.find_closest.cover", False, "no loop returning a covering file", "covering file preferred", node=f.node, func=f)
         return
     lp = loops[0]
-    en = calls_in(lp.iter, "enumerate")
     ok = False
     fact = norm(lp.iter)
-    if en and isinstance(lp.target, ast.Tuple):
-        idx, tc = [norm(e) for e in lp.target.elts]
-        seq = norm(en[0].args[0])
-        sdef = flow.single_def_value(seq, lp)
-        files = None
-        if sdef and isinstance(sdef[0], ast.ListComp) and norm(sdef[0].elt).endswith(".times"):
-            files = norm(sdef[0].generators[0].iter)
-        ifs = [s for s in lp.body if isinstance(s, ast.If)]
-        if ifs and files:
-            t = ifs[0].test
-            r = [s for s in ifs[0].body if isinstance(s, ast.Return)]
+    from ..flow import elementwise, elementwise_elt
+    binds = elementwise(lp.target, lp.iter)
+    if binds is None:
+        raise AnalysisError("find_closest: the cover loop %s is not an element-wise iteration" % norm(lp.iter))
+
+    class _S(ast.NodeTransformer):
+        def visit_Name(self, n):
+            if isinstance(n.ctx, ast.Load) and n.id in binds:
+                return binds[n.id]
+            return n
+
+    def at_index(e):
+        """expression over the loop variables -> expression over the common index, list comprehensions looked through"""
+        e = _S().visit(ast.parse(norm(e), mode="eval").body)
+        if isinstance(e, ast.Subscript) and isinstance(e.value, ast.Name) and norm(e.slice) == "_i":
+            sdef = flow.single_def_value(e.value.id, lp)
+            if sdef and isinstance(sdef[0], ast.ListComp):
+                ee = elementwise_elt(sdef[0])
+                if ee is not None:
+                    return ee
+        return e
+    ifs = [s for s in lp.body if isinstance(s, ast.If)]
+    if ifs:
+        t = ifs[0].test
+        r = [s for s in ifs[0].body if isinstance(s, ast.Return)]
+        cc = calls_in(t, "interval_contains")
+        if len(cc) == 1 and len(cc[0].args) == 2 and r:
+            cov = at_index(cc[0].args[0])
+            ret = at_index(r[0].value)
             from .C03 import TreeFacts
             T = TreeFacts(ctx)
             tt = {}
+            key = norm(cc[0].args[0])
             for a, b, p in ((0, 2, 1), (0, 2, 0), (0, 2, 2), (0, 2, 3), (1, 2, 0)):
-                tt[(a, b, p)] = bool(Interp({tc: (a, b), ts: p}, {"interval_contains": T.IN, "interval_overlaps": T.OV}).ev(t))
+                tt[(a, b, p)] = bool(Interp({key: (a, b), ts: p}, {"interval_contains": T.IN, "interval_overlaps": T.OV}).ev(t))
             want = {(0, 2, 1): True, (0, 2, 0): True, (0, 2, 2): True, (0, 2, 3): False, (1, 2, 0): False}
-            ok = tt == want and bool(r) and norm(r[0].value) == "%s[%s]" % (files, idx)
-            fact = "for %s, %s in enumerate(%s): if %s: return %s" % (idx, tc, seq, norm(t), norm(r[0].value) if r else None)
+            ok = tt == want and norm(cov) == "%s.times" % norm(ret) and isinstance(ret, ast.Subscript) and norm(ret.slice) == "_i"
+            fact = "for %s in %s: if %s: return %s   [element i: coverage %s, returned %s]" % (norm(lp.target), norm(lp.iter), norm(t), norm(r[0].value), norm(cov), norm(ret))
     ctx.ob("FileSet.find_closest.cover", ok, fact, "the first file whose closed coverage contains t is returned, indexing the list the coverages came from", node=lp, func=f)
     # precedes the distance computation
     am = calls_in(f.node, "argmin")
@@ -161,23 +179,44 @@ def rule_nearest(ctx):
     am = calls_in(f.node, "argmin")
     if not am:
         raise AnalysisError("find_closest: argmin not found")
-    rst = enclosing_stmt(am[0])
-    arg = flow.resolve(am[0].args[0], at=am[0], depth=1)
-    t = norm(arg).replace(" ", "")
+    from ..canon import canon
+    cam = canon(am[0])
+    if not cam.args:
+        raise AnalysisError("find_closest: argmin without argument")
+    arg = canon(flow.resolve(cam.args[0], at=am[0], depth=3, stop=(ts,)))
+    # stop the resolution at the list of coverages
     seq = None
     ok = False
-    for cand in ("np.min(np.abs(np.asarray(%s)-%s),axis=1)", "np.abs(np.asarray(%s)-%s).min(axis=1)", "np.min(np.abs(np.array(%s)-%s),axis=1)"):
-        for nm in set(n.id for n in ast.walk(arg) if isinstance(n, ast.Name)):
-            if t == cand % (nm, ts):
+    todo, seen_ = [cam.args[0]], set()
+    while todo and seq is None:
+        e_ = todo.pop(0)
+        for nm in sorted(set(n.id for n in ast.walk(e_) if isinstance(n, ast.Name)) - seen_):
+            seen_.add(nm)
+            sd = flow.single_def_value(nm, am[0])
+            if sd and isinstance(sd[0], ast.ListComp):
                 seq = nm
-                ok = True
+                break
+            if sd:
+                todo.append(sd[0])
+    if seq is None:
+        raise AnalysisError("find_closest: the list of coverages feeding argmin was not found")
+    arg = flow.resolve(cam.args[0], at=am[0], depth=3, stop=(ts, seq))
+    t = norm(arg).replace(" ", "")
+    for cand in ("np.min(np.abs(np.asarray(%s)-%s),axis=1)", "np.min(np.abs(np.array(%s)-%s),axis=1)"):
+        if t == cand % (seq, ts):
+            ok = True
     ctx.ob("FileSet.find_closest.distance", ok, "distance per file = %s" % norm(arg), "min over the two ends (axis=1) of |coverage - t|: abs BEFORE min", node=am[0], func=f)
     files = None
-    if seq:
-        sdef = flow.single_def_value(seq, am[0])
-        if sdef and isinstance(sdef[0], ast.ListComp) and norm(sdef[0].elt).endswith(".times"):
-            files = norm(sdef[0].generators[0].iter)
-    okr = isinstance(rst, ast.Return) and files is not None and norm(rst.value).replace(" ", "") == "%s[np.argmin(%s)]" % (files, norm(am[0].args[0]))
+    sdef = flow.single_def_value(seq, am[0])
+    if sdef and isinstance(sdef[0], ast.ListComp) and norm(sdef[0].elt).endswith(".times") and not sdef[0].generators[0].ifs:
+        files = norm(sdef[0].generators[0].iter)
+    rets = [s_ for s_ in flow.stmts if isinstance(s_, ast.Return) and s_.value is not None
+            and any(isinstance(n_, ast.Call) and isinstance(n_.func, ast.Attribute) and n_.func.attr == "argmin" for n_ in ast.walk(flow.resolve(s_.value, at=s_, depth=3, stop=(ts, seq))))]
+    okr = False
+    rst = rets[-1] if rets else enclosing_stmt(am[0])
+    if rets and files is not None:
+        rv = flow.resolve(rets[-1].value, at=rets[-1], depth=3, stop=(ts, seq, files))
+        okr = norm(rv).replace(" ", "") == "%s[np.argmin(%s)]" % (files, norm(arg).replace(" ", ""))
     ctx.ob("FileSet.find_closest.pick", okr, "%s" % norm(rst), "files[argmin(distances)] - indexes the list the coverages were taken from", node=rst, func=f)
 
 
@@ -187,9 +226,13 @@ def rule_single(ctx):
     first = f.body[0]
     ok = isinstance(first, ast.If) and norm(first.test) == "self.single_file"
     if ok:
+        from ..flow import arms
         inner = first.body[0]
-        ok = isinstance(inner, ast.If) and norm(inner.test) == "self.file_system.isfile(self.path)" and norm(inner.body[0]) == "return self.path" \
-            and any(isinstance(s, ast.Raise) for s in inner.orelse)
+        ab = arms(inner, "self.file_system.isfile(self.path)", first.body) if isinstance(inner, ast.If) else None
+        if ab is None:
+            raise AnalysisError("find_closest: the single-file branch does not test self.file_system.isfile(self.path)")
+        ok = bool(ab[0]) and norm(ab[0][0]) == "return self.path" and any(isinstance(s, ast.Raise) for s in ab[1]) \
+            and not any(isinstance(s, ast.Return) for s in ab[1])
     none_ret = [st for st in walk_no_nested(f.node) if isinstance(st, ast.If) and norm(st.test).startswith("not ") and len(st.body) == 1
                 and isinstance(st.body[0], ast.Return) and norm(st.body[0].value) == "None"]
     ctx.ob("FileSet.find_closest.single", ok and bool(none_ret), "first statement: %s; empty-result guard: %s" % (norm(first.test) if isinstance(first, ast.If) else None,
@@ -201,28 +244,45 @@ def rule_dispatch(ctx):
     ctx.rule("C16.dispatch", "T6", "fileset[t] / fileset[t, filters] pass the filters through, propagate None and read the found file")
     f = ctx.func(FILESET, "FileSet.__getitem__")
     item = f.params[1]
-    first = f.body[0]
-    ok = isinstance(first, ast.If) and "isinstance(%s, (tuple, list))" % item == norm(first.test)
-    if ok:
-        b = {norm(s.targets[0]): norm(s.value) for s in first.body if isinstance(s, ast.Assign)}
-        e = {norm(s.targets[0]): norm(s.value) for s in first.orelse if isinstance(s, ast.Assign)}
-        ok = b == {"time_args": "%s[0]" % item, "filters": "%s[1]" % item} and e == {"time_args": item, "filters": "None"}
-    ctx.ob("FileSet.__getitem__.unpack", ok, "%s" % norm(first)[:140], "(t, filters) tuples are split; a bare key has no filters", node=first, func=f)
+    flow = Flow(f)
     fc = calls_in(f.node, "find_closest")
-    okc = False
-    fact = None
-    if fc:
-        c = fc[0]
-        st = enclosing_stmt(c)
-        nm = norm(st.targets[0]) if isinstance(st, ast.Assign) else None
-        kw = {k.arg: norm(k.value) for k in c.keywords}
-        fact = norm(st)
-        par = parent(st)
-        body = par.body if isinstance(par, ast.If) else []
-        i = body.index(st) if st in body else -1
-        rest = [norm(s) for s in body[i + 1:]] if i >= 0 else []
-        okc = norm(c.args[0]) == "time_args" and kw.get("filters") == "filters" and rest[:2] == ["if %s is None:\n    return None" % nm, "return self.read(%s)" % nm]
-    ctx.ob("FileSet.__getitem__.closest", okc, "%s" % fact, "find_closest(time_args, filters=filters); None propagates; otherwise self.read(found)", node=fc[0] if fc else f.node, func=f)
+    if len(fc) != 1:
+        raise AnalysisError("__getitem__: expected one self.find_closest(...) call")
+    c = fc[0]
+    g = ctx.func(FILESET, "FileSet.find_closest")
+    from ..calls import bind_args
+    b = bind_args(c, g)
+    targ, farg = b.get(g.params[1]), b.get(g.params[2])
+    cond = "isinstance(%s, (tuple, list))" % item
+    got = {}
+    for v in (True, False):
+        got[v] = (norm(flow.resolve_under(targ, {cond: v}, at=c, stop=(item,))) if targ is not None else None,
+                  norm(flow.resolve_under(farg, {cond: v}, at=c, stop=(item,))) if farg is not None else None)
+    ok = got[True] == ("%s[0]" % item, "%s[1]" % item) and got[False] == (item, "None")
+    ctx.ob("FileSet.__getitem__.unpack", ok, "find_closest(t, filters) receives %s for a tuple key and %s for a bare key" % (got[True], got[False]),
+           "(t, filters) tuples are split; a bare key has no filters", node=c, func=f)
+    st = enclosing_stmt(c)
+    nm = st.targets[0].id if isinstance(st, ast.Assign) and isinstance(st.targets[0], ast.Name) else None
+    if nm is None:
+        raise AnalysisError("__getitem__: the result of find_closest is not bound to a name")
+    reads = [r_ for r_ in flow.stmts if isinstance(r_, ast.Return) and r_.value is not None
+             and any(isinstance(n_, ast.Name) and n_.id == nm for n_ in ast.walk(r_.value)) and calls_in(r_.value)]
+    if len(reads) != 1:
+        raise AnalysisError("__getitem__: expected one return that hands the found file to a reader")
+    rr = reads[0]
+    none_case = flow.resolve_under(rr.value, {"%s is None" % nm: True}, at=rr, stop=(nm,))
+    some_case = flow.resolve_under(rr.value, {"%s is None" % nm: False}, at=rr, stop=(nm,))
+    okc = norm(some_case) == "self.read(%s)" % nm
+    if norm(none_case) != "None":
+        # not decided inside the return expression: a guard must have returned None before
+        from ..flow import arms
+        blk = parent(rr)
+        body = next((getattr(blk, fld) for fld in ("body", "orelse") if any(x is rr for x in getattr(blk, fld, []))), [])
+        guards = [(s_, arms(s_, "%s is None" % nm, body)) for s_ in body if isinstance(s_, ast.If)]
+        guards = [(s_, a_) for s_, a_ in guards if a_ is not None]
+        okc = okc and len(guards) == 1 and len(guards[0][1][0]) == 1 and norm(guards[0][1][0][0]) == "return None" \
+            and any(x is rr for x in guards[0][1][1])
+    ctx.ob("FileSet.__getitem__.closest", okc, "%s; then %s" % (norm(st), norm(rr)), "find_closest(time_args, filters=filters); None propagates; otherwise self.read(found)", node=c, func=f)
 
 
 def run(ctx):
